@@ -27,7 +27,7 @@ BUDGET_S = {'quick': 110, 'thorough': 540}
 NUMBA_THREADS = 2
 SUBJECTS = ['cpa', 'cpa_alt', 'dpa', 'anova', 'nicv', 'snr', 'mia', 'tbuild', 'tstatic', 'tdpa']
 KINDS = ['traces_list', 'data_list', 'data_none', 'rows_mismatch', 'traces_1d', 'trace_len', 'word_count', 'data_float', 'dpa_nonbinary',
-         'auto_big', 'auto_negative', 'memory_refused', 'data_int64', 'traces_float16', 'traces_3d']
+         'auto_big', 'auto_negative', 'memory_refused', 'data_int64', 'traces_float16', 'traces_3d', 'huge_value']
 REQUIRED_COUNTERS = ['auto_partition_first_call_rejections', 'rejections_observed', 'rejections_first_call', 'rejections_later_call', 'state_after_rejection_compared',
                      'later_results_compared', 'analysis_process_rejections', 'analysis_run_interruptions', 'template_run_before_build']
 RULE = ('a case = (distinguisher in 10 classes | analysis class, rejection kind in 12 + 5 analysis-level kinds, number k <= 4 of accepted batches, '
@@ -56,6 +56,8 @@ def applicable(name, kind, p):
         return name not in ('cpa', 'cpa_alt', 'tstatic')
     if kind == 'data_int64':
         return name in subjects.PARTITIONED
+    if kind == 'huge_value':
+        return p >= 1                                # accepted today (inf / nan results): judged only if a tree refuses it
     if kind == 'traces_float16':
         return name in subjects.PARTITIONED          # valid shapes and data, a trace dtype the compiled kernels have no signature for
     if kind == 'dpa_nonbinary':
@@ -92,7 +94,7 @@ def cases(tier, seed):
             out.append(dict(gen='dist', subject=name, kind=kind, k=2, auto=True, precision=['float32', 'float64'][k % 2], sub=core.subseed('C16auto', seed, name, kind), must=True))
             k += 1
     for j, klass in enumerate(['CPAAttack', 'CPAReverse', 'DPAAttack', 'ANOVAAttack', 'NICVReverse', 'SNRAttack', 'MIAAttack', 'DPAReverse']):
-        for akind in ('sf_missing_key', 'model_rejects_dtype', 'other_trace_length', 'rows_differ', 'preprocess_raises'):
+        for akind in ('sf_missing_key', 'model_rejects_dtype', 'other_trace_length', 'rows_differ', 'preprocess_raises', 'run_refused'):
             out.append(dict(gen='analysis', klass=klass, kind=akind, precision=['float32', 'float64'][(j + k) % 2], sub=core.subseed('C16a', seed, klass, akind), must=True))
     for kind in ('tstatic', 'tdpa'):
         out.append(dict(gen='prebuild', subject=kind, precision='float64', sub=core.subseed('C16p', seed, kind), must=True))
@@ -107,7 +109,7 @@ def cases(tier, seed):
         elif r < 0.93:
             out.append(dict(gen='analysis', klass=['CPAAttack', 'CPAReverse', 'DPAAttack', 'ANOVAAttack', 'NICVReverse', 'SNRAttack', 'MIAAttack', 'DPAReverse',
                                                     'ANOVAReverse', 'NICVAttack', 'SNRReverse', 'MIAReverse'][int(rs.integers(12))],
-                            kind=['sf_missing_key', 'model_rejects_dtype', 'other_trace_length', 'rows_differ', 'preprocess_raises'][int(rs.integers(5))],
+                            kind=['sf_missing_key', 'model_rejects_dtype', 'other_trace_length', 'rows_differ', 'preprocess_raises', 'run_refused'][int(rs.integers(6))],
                             precision=['float32', 'float64'][int(rs.integers(2))], sub=int(rs.integers(2 ** 62))))
         else:
             out.append(dict(gen='prebuild', subject=['tstatic', 'tdpa'][int(rs.integers(2))], precision=['float32', 'float64'][int(rs.integers(2))], sub=int(rs.integers(2 ** 62))))
@@ -137,6 +139,10 @@ def _bad_call(kind, tr, d, rng, name):
         return np.ascontiguousarray(tr[:, 0]), d
     if kind == 'traces_3d':
         return np.ascontiguousarray(np.repeat(tr[:, :, None], 2, axis=2)), d
+    if kind == 'huge_value':
+        big = tr.astype('float64')
+        big[-1, -1] = 1e30
+        return big, d
     if kind == 'trace_len':
         return np.concatenate([tr, tr[:, :1]], axis=1), d
     if kind == 'word_count':
@@ -387,7 +393,7 @@ def run_multi(case):
 # ---------------------------------------------------------------------------------------------------------
 # analysis level
 
-def _make_analysis(klass, prec, G, parts_hw=True, edges=None):
+def _make_analysis(klass, prec, G, parts_hw=True, edges=None, conv=None):
     import scared
     K = getattr(scared, klass)
     attack = klass.endswith('Attack')
@@ -403,6 +409,8 @@ def _make_analysis(klass, prec, G, parts_hw=True, edges=None):
         def sf(v):
             return v ^ 0x5a
     kw = dict(selection_function=sf, precision=prec)
+    if attack and conv:
+        kw['convergence_step'] = conv
     if klass.startswith('DPA'):
         kw['model'] = scared.Monobit(int(G % 8))
     else:
@@ -420,6 +428,9 @@ def _observe_analysis(a):
     out = [('results', np.array(a.results))]
     if hasattr(a, 'scores') and a.scores is not None:
         out.append(('scores', np.array(a.scores)))
+    if getattr(a, 'convergence_step', None):
+        ct = getattr(a, 'convergence_traces', None)
+        out.append(('convergence_traces', np.zeros((0,)) if ct is None else np.array(ct)))
     return out
 
 
@@ -443,12 +454,51 @@ def run_analysis(case):
     forced = klass[:3] in ('ANO', 'NIC', 'SNR')
     kseq = [int(x) for x in rng.integers(0, 2, nb + 2)]
 
+    conv = int(rng.choice([1, 2, 3, 5, 8])) if (rng.random() < 0.4 and kind != 'preprocess_raises') or kind == 'run_refused' else None
+    info['convergence_step'] = conv
+
     def fresh():
-        a = _make_analysis(klass, prec, G)
+        a = _make_analysis(klass, prec, G, conv=conv)
         if forced:
             CONTROL.force(a, list(kseq))
         return a
 
+    if kind == 'run_refused':
+        # an accepted run(), then a run() that is refused at its first batch (container with another trace length), then a last accepted run():
+        # everything a user can read - counts, results, scores, convergence traces - is that of the accepted runs only
+        m1 = int(rng.integers(1, N - 1)) if N > 2 else 1
+        bad = scared.traces.read_ths_from_ram(samples=np.concatenate([samples[:3], samples[:3, :1]], axis=1), v=v[:3])
+        try:
+            scared.set_batch_size(bs)
+            twin = fresh()
+            twin.run(scared.Container(ths[:m1]))
+            a = fresh()
+            a.run(scared.Container(ths[:m1]))
+            before_obs = _observe_analysis(a)
+            raised = None
+            try:
+                a.run(scared.Container(bad))
+            except Exception as e:
+                raised = type(e).__name__
+            if raised is None:
+                t.count('accepted_unexpectedly')
+                r = core.held(0, nontrivial=False, counters=t.counters)
+                r['metrics'] = {}
+                return r
+            t.count('analysis_run_interruptions')
+            t.count('rejections_observed')
+            t.count('rejections_later_call')
+            t.count('state_after_rejection_compared')
+            t.check(int(a.processed_traces) == m1, 'rejected_call_changed_processed_traces', lambda: dict(info, raised=raised, processed_traces=int(a.processed_traces)))
+            _same_results(t, klass, _observe_analysis(a), before_obs, 'rejected_call_changed_results', dict(info, raised=raised, first_run=m1))
+            if N - m1 >= 1:
+                a.run(scared.Container(ths[m1:]))
+                twin.run(scared.Container(ths[m1:]))
+                t.count('later_results_compared')
+                _same_results(t, klass, _observe_analysis(a), _observe_analysis(twin), 'later_results_differ_after_rejected_call', dict(info, raised=raised, first_run=m1))
+        finally:
+            scared.set_batch_size(None)
+        return t.result(sig=f"{klass}|{kind}|{N}|{bs}|{m1}|{conv}|{prec}", sample=dict(case=case, derived=info))
     if kind == 'preprocess_raises':
         j = int(rng.integers(0, nb))
         state = dict(armed=False, calls=0, fail_at=j)
